@@ -82,9 +82,11 @@ func (d *deduplicator) notifyDKGResultSubmitted(
 ) bool {
 	d.dkgResultHashCache.Sweep()
 
-	cacheKey := newDKGResultSeed.Text(16) +
-		hex.EncodeToString(newDKGResultHash[:]) +
-		strconv.Itoa(int(newDKGResultBlock))
+	cacheKey := dkgResultSubmittedCacheKey(
+		newDKGResultSeed,
+		newDKGResultHash,
+		newDKGResultBlock,
+	)
 
 	// Add checks for the key and inserts it in one step under the cache's
 	// lock and reports whether the key was inserted. Checking with Has and
@@ -96,6 +98,24 @@ func (d *deduplicator) notifyDKGResultSubmitted(
 	// client should not proceed with the execution.
 	verifhook.Point("tbtc.notifyDKGResultSubmitted")
 	return d.dkgResultHashCache.Add(cacheKey)
+}
+
+// dkgResultSubmittedCacheKey builds the cache key of a DKG result submission
+// event from the hexadecimal seed, the hexadecimal result hash and the decimal
+// block number. The seed and the block number have variable lengths, so the
+// three parts are joined with a separator that occurs in none of them.
+// Without it, different events could produce the same key: for example seed
+// 0xab, hash 0x1c..c (63 times c), block 71234 and seed 0xab1, hash 0xc..c7,
+// block 1234 both gave "ab1c..c71234" and the latter event was dropped as
+// a duplicate of the former.
+func dkgResultSubmittedCacheKey(
+	seed *big.Int,
+	resultHash DKGChainResultHash,
+	block uint64,
+) string {
+	return seed.Text(16) + ":" +
+		hex.EncodeToString(resultHash[:]) + ":" +
+		strconv.Itoa(int(block))
 }
 
 func (d *deduplicator) notifyWalletClosed(
